@@ -144,8 +144,15 @@ PROPERTIES = {
                            "brute force, and the same polyhedron object queried repeatedly."},
     "C13": {"rt": ["rt.arrays:c13_compress"], "level": "other", "assumptions": S_ALL + ["A-rs2: py_optimized_bit_allocation_64 (compiled Rust) is not under contract"],
             "explanation": "bounded stand-in only"},
-    "C14": {"rt": ["rt.config:c14_objectives"], "level": "other", "assumptions": S_ALL + ["A-rs2"],
-            "explanation": "bounded stand-in only so far: all pairs of feasible points of small configurators"},
+    "C14": {"harness_modules": ["contracts.c14"], "lean": True, "rt": ["rt.config:c14_objectives"], "level": "other",
+            "assumptions": S_ALL + ["A-rs2: the weights come from puan_rspy.py_optimized_bit_allocation_64 (compiled Rust, not under "
+                                    "contract); 'shadow' compression is C13 (bounded stand-in)"],
+            "explanation": "deductive: cc.Any.__init__ / cc.Xor.__init__ (real source, abstract duplicate-free boolean children of any "
+                           "number): same truth function as Any / exactly-one; with a default among >= 2 children the non-default "
+                           "children are moved into an inner Any tagged prio = -2 and the default branch keeps exactly the default "
+                           "child (partition), plain Any otherwise; the default is recorded. Lean: dominance_two_level. bounded "
+                           "stand-in: default_prios, _vectors_from_prios through select (sequences, batches, named groups) and the "
+                           "lexicographic ranking of ALL pairs of feasible points of small configurators."},
     "C15": {"harness_modules": ["contracts.c15"], "rt": ["rt.config:c15_bridge"], "level": "other", "assumptions": S_ALL +
             ["to_ge_polyhedron / _vectors_from_prios are replaced on the receiver by stubs returning a prepared polyhedron / objective matrix "
              "with symbolic entries (their own contracts: C01, C13/C14); optimality of an exact solver's answer over that polyhedron is the "
